@@ -417,9 +417,49 @@ class Gen:
         elif c == 6: self.do("AddC 1 " + " ".join(str(r.below(50)) for _ in range(1 + r.below(7))))
         else: self.do("AddFV " + " ".join(str(r.below(50)) for _ in range(r.below(5))))
 
+    def oriented_patch(self):
+        """edges STORED in arbitrary orientation (explicit add_edge, shuffled), faces by halfedges, then topology-checked add_cell on
+        closed and open sub-surfaces.  Aims at the sort / adjacent_find / unique logic of the cell check: with walking-order edges
+        (add_face from vertices) an unmatched halfedge 2k+1 is never followed by 2k+2 in the sorted list, here it is."""
+        r = self.r
+        base = self.st().nv
+        self.add_vertices(5)
+        v = [base + i for i in range(5)]
+        kind = r.below(4)
+        if kind == 0: cycles = [(v[0], v[1], v[2]), (v[0], v[2], v[3]), (v[0], v[3], v[1]), (v[1], v[3], v[2])]
+        elif kind == 1: cycles = [(v[3], v[2], v[1], v[0]), (v[0], v[1], v[4]), (v[1], v[2], v[4]), (v[2], v[3], v[4]), (v[3], v[0], v[4])]
+        elif kind == 2: cycles = [(v[0], v[1], v[2], v[3])]
+        else: cycles = [(v[0], v[1], v[2], v[3], v[4]), (v[0], v[2], v[1])]
+        pairs = []
+        for c in cycles:
+            for i in range(len(c)):
+                a, b = c[i], c[(i + 1) % len(c)]
+                if (a, b) not in pairs and (b, a) not in pairs: pairs.append((a, b))
+        emap = {}
+        alternate = r.chance(1, 2)
+        for i, (a, b) in enumerate(pairs if alternate else r.shuffle(pairs)):
+            if (i % 2 == 0) if alternate else r.chance(1, 2): a, b = b, a
+            e = self.do("@AddE %d %d 0" % (a, b)).result()
+            if not isinstance(e, int): return
+            emap[(a, b)] = 2 * e; emap[(b, a)] = 2 * e + 1
+        hfs = []
+        for c in cycles:
+            hes = [emap[(c[i], c[(i + 1) % len(c)])] for i in range(len(c))]
+            f = self.do("@AddF 1 " + " ".join(map(str, hes))).result()
+            if not isinstance(f, int): return
+            hfs.append(2 * f)
+        for _ in range(2 + r.below(4)):
+            sub = r.shuffle(list(hfs))[:1 + r.below(len(hfs))]
+            if r.chance(1, 3): sub = [h ^ 1 for h in sub]
+            if r.chance(1, 6): sub[0] ^= 1
+            self.do("@AddC 1 " + " ".join(map(str, sub)))          # open (or wrongly oriented) surfaces must be rejected
+        if len(hfs) >= 4 and not any(h in self.st().used_halffaces() for h in hfs):
+            self.do("@AddC 1 " + " ".join(map(str, r.shuffle(list(hfs)))))
+
     def checked_adds(self):
         """topology-checked add_face / add_cell on closed, open, repeated, doubled, missing inputs"""
         s = self.st(); r = self.r
+        if r.chance(1, 4): return self.oriented_patch()
         if s.live_f() and r.chance(1, 2):
             f = r.pick(s.live_f())
             hes = list(s.halfface(2 * f + r.below(2)))
